@@ -3930,7 +3930,10 @@ def EscapeHtmlIs (F : Bytes → List Expr → JVal → JOut) : Prop :=
 section
 variable (F : Bytes → List Expr → JVal → JOut) (G : Bytes → JVal → JOut) (ae : Autoescape) (hesc : EscapeHtmlIs F)
 variable (reg : Registry.Reg) (hasBundle : Bool) (entry : Spec.Eval.Binds)
-variable (call : Registry.Tmpl → Spec.Eval.CallEnv → Out Bytes)
+variable (call call' : Registry.Tmpl → Spec.Eval.CallEnv → Out Bytes)
+-- the reference's `call` and the specification's: the latter renders what the former does
+variable (hcall : ∀ (name : Bytes) (t : Registry.Tmpl) (ce : Spec.Eval.CallEnv) (out : Bytes),
+  Registry.lookup reg name = some t → call t ce = .val out → call' t ce = .val out)
 include hesc
 
 theorem refPrint_nil (v : Val) (s : Bytes) (h : refPrint F ae [] v = .val s) :
@@ -3960,9 +3963,11 @@ theorem refPrint_nil (v : Val) (s : Bytes) (h : refPrint F ae [] v = .val s) :
         simp only [hs, Out.val.injEq] at h
         exact ⟨s0, C04c.showVal_toStr v jv s0 hv hs, h.symm⟩
 
+include hcall
+
 mutual
   theorem ref_le_spec_cmd : ∀ (c : Cmd) (env : SEnv) (r : Bytes × SEnv), plainCmd c = true →
-      refCmd F ⟨reg, entry, call⟩ ae c env = .val r → Spec.Eval.renderCmd reg hasBundle (ae != .off) entry call none c env = .val r
+      refCmd F ⟨reg, entry, call⟩ ae c env = .val r → Spec.Eval.renderCmd reg hasBundle (ae != .off) entry call' none c env = .val r
     | .rawText p t, env, r, _, h => by
       rw [Spec.Eval.renderCmd]
       simpa [refCmd] using h
@@ -4051,6 +4056,9 @@ mutual
         rw [hb]
         simp only [Spec.Eval.Out.bind]
         rw [ref_le_spec_params params env ps (by simpa [plainCmd] using hp) hps]
+        obtain ⟨o, ho, h⟩ := out_bind_val h
+        dsimp only
+        rw [hcall name callee _ o hl ho]
         exact h
     | .call p name true (some d) params, env, r, hp, h => by
       rw [Spec.Eval.renderCmd]
@@ -4064,6 +4072,9 @@ mutual
         rw [hb]
         simp only [Spec.Eval.Out.bind]
         rw [ref_le_spec_params params env ps (by simpa [plainCmd] using hp) hps]
+        obtain ⟨o, ho, h⟩ := out_bind_val h
+        dsimp only
+        rw [hcall name callee _ o hl ho]
         exact h
     | .call p name false none params, env, r, hp, h => by
       rw [Spec.Eval.renderCmd]
@@ -4077,6 +4088,9 @@ mutual
         rw [hb]
         simp only [Spec.Eval.Out.bind]
         rw [ref_le_spec_params params env ps (by simpa [plainCmd] using hp) hps]
+        obtain ⟨o, ho, h⟩ := out_bind_val h
+        dsimp only
+        rw [hcall name callee _ o hl ho]
         exact h
     | .call p name false (some d) params, env, r, hp, h => by
       rw [Spec.Eval.renderCmd]
@@ -4094,6 +4108,9 @@ mutual
         subst hb
         simp only [Spec.Eval.Out.bind]
         rw [ref_le_spec_params params env ps (by simpa [plainCmd] using hp) hps]
+        obtain ⟨o, ho, h⟩ := out_bind_val h
+        dsimp only
+        rw [hcall name callee _ o hl ho]
         exact h
     | .letContent p name body, env, r, hp, h => by
       rw [Spec.Eval.renderCmd]
@@ -4107,7 +4124,7 @@ mutual
     | .soyDoc .., _, _, _, h => by simp [refCmd] at h
   theorem ref_le_spec_params : ∀ (ps : ParamList) (env : SEnv) (out : Spec.Eval.Binds), plainParams ps = true →
       refParams F ⟨reg, entry, call⟩ ae ps env = .val out →
-      Spec.Eval.renderParams reg hasBundle (ae != .off) entry call none ps env = .val out
+      Spec.Eval.renderParams reg hasBundle (ae != .off) entry call' none ps env = .val out
     | .nil, env, out, _, h => by
       rw [Spec.Eval.renderParams]
       simpa [refParams] using h
@@ -4131,12 +4148,12 @@ mutual
       rw [ref_le_spec_params rest env r hp.2 hr]
       exact h
   theorem ref_le_spec_block : ∀ (b : Block) (env : SEnv) (out : Bytes), plainBlock b = true →
-      refBlock F ⟨reg, entry, call⟩ ae b env = .val out → Spec.Eval.renderBlock reg hasBundle (ae != .off) entry call none b env = .val out
+      refBlock F ⟨reg, entry, call⟩ ae b env = .val out → Spec.Eval.renderBlock reg hasBundle (ae != .off) entry call' none b env = .val out
     | .mk p cmds, env, out, hp, h => by
       rw [Spec.Eval.renderBlock]
       exact ref_le_spec_cmds cmds env out (by simpa [plainBlock] using hp) (by simpa [refBlock] using h)
   theorem ref_le_spec_cmds : ∀ (cs : CmdList) (env : SEnv) (out : Bytes), plainCmds cs = true →
-      refCmds F ⟨reg, entry, call⟩ ae cs env = .val out → Spec.Eval.renderCmds reg hasBundle (ae != .off) entry call none cs env = .val out
+      refCmds F ⟨reg, entry, call⟩ ae cs env = .val out → Spec.Eval.renderCmds reg hasBundle (ae != .off) entry call' none cs env = .val out
     | .nil, env, out, _, h => by
       rw [Spec.Eval.renderCmds]
       simpa [refCmds] using h
@@ -4151,7 +4168,7 @@ mutual
       rw [ref_le_spec_cmds rest r1.2 more hp.2 h2]
       exact h
   theorem ref_le_spec_cases : ∀ (cs : CaseList) (sv : Val) (env : SEnv) (out : Bytes), plainCases cs = true →
-      refCases F ⟨reg, entry, call⟩ ae cs sv env = .val out → Spec.Eval.renderCases reg hasBundle (ae != .off) entry call none cs sv env = .val out
+      refCases F ⟨reg, entry, call⟩ ae cs sv env = .val out → Spec.Eval.renderCases reg hasBundle (ae != .off) entry call' none cs sv env = .val out
     | .nil, sv, env, out, _, h => by
       rw [Spec.Eval.renderCases, Spec.Eval.renderMatch, Spec.Eval.renderDefault]
       simpa [refCases, Spec.Eval.Out.bind, Spec.Eval.orDefault] using h
@@ -4191,7 +4208,7 @@ mutual
           rw [Spec.Eval.renderCases] at this
           exact this
   theorem ref_le_spec_conds : ∀ (cs : CondList) (env : SEnv) (out : Bytes), plainConds cs = true →
-      refConds F ⟨reg, entry, call⟩ ae cs env = .val out → Spec.Eval.renderConds reg hasBundle (ae != .off) entry call none cs env = .val out
+      refConds F ⟨reg, entry, call⟩ ae cs env = .val out → Spec.Eval.renderConds reg hasBundle (ae != .off) entry call' none cs env = .val out
     | .nil, env, out, _, h => by
       rw [Spec.Eval.renderConds]
       simpa [refConds] using h
@@ -4230,7 +4247,7 @@ theorem gen_correct_cmds_spec (hesc : EscapeHtmlIs F) (buf : Bytes)
     ∃ text, Spec.Eval.renderCmds reg hasBundle (ae != .off) entry call none cmds env = .val text ∧
       BufIs buf jenv' (out ++ text) := by
   obtain ⟨text, ht, hb', _⟩ := cmds_ok F G ⟨reg, entry, call⟩ ae hG cmds buf fuel sc r env jenv jenv' out h hs hg hrel hb hx
-  exact ⟨text, ref_le_spec_cmds F ae hesc reg hasBundle entry call cmds env text hplain ht, hb'⟩
+  exact ⟨text, ref_le_spec_cmds F ae hesc reg hasBundle entry call call (fun _ _ _ _ _ h => h) cmds env text hplain ht, hb'⟩
 
 end
 
@@ -4601,12 +4618,16 @@ example : (match execStmts sampleF sampleG 10
   image of the entry data (`gen_correct_body_partial`: `R.entry = env.vars`).  Props/C04e adds `CallRelE` (the
   function throws only where `call` does not render) for the converse.  `CallRel` is the statement of this very
   theorem one template down; Props/C04e discharges both by induction over the call depth for the oracle that RUNS the
-  callee's translated body (`genCall` / `refCall`, `calls_correct`, `gen_correct_program_partial`).  The harness
-  property C04sem instantiates the oracle the same way (`genBody`) and compares with otto.
+  callee's translated body (`genCall` / `refCall`, `calls_correct`, `gen_correct_program_partial`); Props/C04f does it
+  for the TABLE of the generated functions of a file / a registry (`callFn`, `calls_table_correct`) and goes on to
+  Spec/Eval.render itself (`gen_correct_registry_partial`, `gen_correct_file_partial`).  The harness property C04sem
+  runs the entry function through that table and compares with otto.
 
   OUTSIDE (no theorem at the command level): `range` with a computed step, `{call}` to a `{deltemplate}` (`{delcall}`),
-  `refCall` against Spec/Eval.renderTmpl itself (needs `ref_le_spec` for two different `call`s), `{msg}` (placeholders, plural), `{css}`, `{log}`, `{debugger}`, `$ij`, globals, print directives with
-  non-literal arguments, the template header (`opt_data = opt_data || {}`, `return output`) and
-  the file level (namespaces, goog.provide / ES6 imports — covered for SHAPE by C14, not for meaning). -/
+  the converse against Spec/Eval.render where the JavaScript THROWS (Props/C04f `gen_complete_registry_spec_partial`, hypothesis
+  `hthrow`), `{msg}` (placeholders, plural), `{css}`, `{log}`, `{debugger}`, `$ij`, globals, print directives with
+  non-literal arguments, and
+  the file level above the functions (namespace declarations, goog.provide / ES6 imports — covered for SHAPE by C14, not for
+  meaning; the functions themselves: Props/C04f). -/
 
 end SoyVerif.Props.C04d
